@@ -111,6 +111,7 @@ func runCheck(repo, out, prop, tier string, timeout, seed int, verbose, keep boo
 	if len(names) == 0 && len(lemmas) == 0 {
 		return undecided("no contract is tagged with this property")
 	}
+	onlyProperty = prop
 	// generate obligations, one machine per function, in parallel
 	reports := make([]*FuncReport, len(names))
 	var wg sync.WaitGroup
